@@ -44,9 +44,9 @@ var scenarios = []scn{
 
 // fault is one planned perturbation.
 type fault struct {
-	Kind string // exception | cut | write-error | callback-fail | unknown-packet | unexpected-packet | exception+write-error | cancel | deadline | deadline-passed | foreign-close | stall
-	Gate string // gate occurrence at which it fires (kinds that need one)
-	K    int64  // byte offset (cut, write-error) or unexpected packet kind index
+	Kind  string // exception | cut | write-error | callback-fail | unknown-packet | unexpected-packet | exception+write-error | cancel | deadline | deadline-passed | foreign-close | stall
+	Gate  string // gate occurrence at which it fires (kinds that need one)
+	K     int64  // byte offset (cut, write-error) or unexpected packet kind index
 	Reset bool
 	Mask  int
 	Hold  bool // hold the gated goroutine until the injected packet has been consumed (steers the schedule only)
@@ -88,30 +88,30 @@ var unexpectedPackets = []struct {
 }
 
 type runOut struct {
-	Err        error
-	Returned   bool
-	Gates      []string
-	Hooks      []string
-	Sim        *Sim
-	Fired      bool
-	FiredAt    int64 // logical clock (gate index) when the fault fired
-	HandshakeW int64 // client bytes written by the handshake
-	HandshakeR int64 // server bytes delivered during the handshake
-	WrittenAtReturn int64
-	PendingAtReturn int
-	SrvErrAtReturn  error
-	CloseCallsAtReturn int
-	ClosedAtReturn  bool
+	Err                    error
+	Returned               bool
+	Gates                  []string
+	Hooks                  []string
+	Sim                    *Sim
+	Fired                  bool
+	FiredAt                int64 // logical clock (gate index) when the fault fired
+	HandshakeW             int64 // client bytes written by the handshake
+	HandshakeR             int64 // server bytes delivered during the handshake
+	WrittenAtReturn        int64
+	PendingAtReturn        int
+	SrvErrAtReturn         error
+	CloseCallsAtReturn     int
+	ClosedAtReturn         bool
 	PacketsBegunAfterFault int
-	cancel     context.CancelFunc
-	Elapsed    time.Duration
+	cancel                 context.CancelFunc
+	Elapsed                time.Duration
 	// stuck-state evidence captured when the watchdog fired (before the context is cancelled)
 	StuckReaders int
 	StuckArmed   bool
 	StuckQueue   int
 	StuckStacks  string
-	FiredWall  time.Time
-	ReturnWall time.Time
+	FiredWall    time.Time
+	ReturnWall   time.Time
 }
 
 func scnBlock(rng *rand.Rand, rows int) *ref.Block {
@@ -169,6 +169,15 @@ func runScenarioWith(sc scn, seed int64, f *fault, readTimeout time.Duration, ba
 				foreign.Add(1)
 				go func() { defer foreign.Done(); _ = client.Close() }()
 			}
+		case "foreign-close-late":
+			if client != nil {
+				foreign.Add(1)
+				go func() {
+					defer foreign.Done()
+					time.Sleep(time.Duration(1+f.K%4) * time.Millisecond) // lands around or after the end of Do
+					_ = client.Close()
+				}()
+			}
 		case "drop-connection":
 			sim.Conn.DropQueuedAfterCurrent()
 			sim.Conn.Push(simnet.Item{EOF: true})
@@ -218,7 +227,9 @@ func runScenarioWith(sc scn, seed int64, f *fault, readTimeout time.Duration, ba
 		}
 		return items
 	}
-	prog := func() []byte { return simnet.PacketProgress(54460, ref.Progress{Rows: uint64(1 + rng.Intn(100)), Bytes: uint64(rng.Intn(10000))}) }
+	prog := func() []byte {
+		return simnet.PacketProgress(54460, ref.Progress{Rows: uint64(1 + rng.Intn(100)), Bytes: uint64(rng.Intn(10000))})
+	}
 	data := func(rows int) []byte {
 		return simnet.PacketData(54460, ref.ServerDataCode, scnBlock(rng, rows), compressed, ref.MethodLZ4)
 	}
